@@ -197,6 +197,15 @@ def lm_scenario(rng, ctype, r, c, F, radius, corr_only=False):
         sc.add_reflect([q], [cp])
         sc.add_reflect([int(rng.choice(ports))], [cp])
         corr = (cp, delta)
+        if rng.random() < 0.4:
+            # a chain: a second correlated parameter whose correlate is the
+            # first one (itself solved for), measured twice as well
+            cp2 = Param.correlated(cp.values + delta, cp,
+                                   10 ** rng.uniform(-3, -1))
+            sc.add_reflect([int(rng.choice(ports))], [cp2])
+            sc.add_reflect([int(rng.choice(ports))], [cp2])
+            kinds.append("correlated_chain")
+            corr = (cp, 2 * delta)
     known_n = None
     sc.choose_entries()
     # entry choice may abbreviate matrices of the leakage standards
@@ -517,6 +526,96 @@ def work_resolve(chunk_id, payload):
     return part
 
 
+def work_again(chunk_id, payload):
+    """the analytic through / reflect / line case solved twice in one
+    vnacal_t with the same two unknown handles (same initial guesses): the
+    second set of standards has another reflect, whose sign ambiguity is
+    resolved correctly from the guess (-1) but wrongly from the first
+    solution.  Every solve starts from the guesses the user gave."""
+    seed, n, binary, workroot = payload
+    part = dict(evaluations=0, counters={}, maxima={}, distinct=set(),
+                samples=[], violations=[], inconclusive=[], harness_errors=[])
+    cnt = part["counters"]
+    cases, meta = [], {}
+    for k in range(n):
+        rng = np.random.default_rng([seed, chunk_id, k, 232])
+        ctype = ["T8", "U8", "TE10", "UE10"][(chunk_id + k) % 4]
+        F = int(rng.choice([1, 2, 3]))
+        A, unkA = trl_scenario(rng, ctype, F)
+        B, unkB = trl_scenario(rng, ctype, F)
+        B.freqs = A.freqs.copy()
+        (_, RpA), (_, LpA) = unkA
+        (_, RpB), (_, LpB) = unkB
+        th = rng.uniform(np.radians(60), np.radians(85))
+        mag = rng.uniform(0.8, 1.0)
+        RpA.values = np.full(F, mag * np.exp(1j * (np.pi - th)))
+        RpB.values = np.full(F, mag * np.exp(1j * (np.pi + th)))
+        RpA.guess = Param("scalar", np.full(F, -mag, dtype=complex))
+        LpB.values = LpA.values.copy()
+        dutsA, dutsB = A.rand_dut(), B.rand_dut()
+        s, L = emit(A, unkA, {}, dutsA)
+        RpB.var, LpB.var = RpA.var, LpA.var
+        B.emit_header(s, vn="vn2", create=False)
+        uid = [7000]
+        L2 = dict(add=[B.emit_std(s, st, 100 + i, vn="vn2", uid=uid)
+                       for i, st in enumerate(B.stds)])
+        L2["solve"] = s.op("vnacal_new_solve $vn2")
+        L2["values"] = {"R": s.op("vnacal_get_parameter_values $vc %s @qf"
+                                  % RpA.var),
+                        "L": s.op("vnacal_get_parameter_values $vc %s @qf"
+                                  % LpA.var)}
+        cid = "a%d_%d" % (chunk_id, k)
+        cases.append((cid, s.text()))
+        meta[cid] = (A, B, L, L2, RpA, RpB, LpB)
+    wd = os.path.join(workroot, "wa%d" % chunk_id)
+    results = R.run_cases(binary, cases, wd, timeout=900, watchdog=60)
+    for cid, text in cases:
+        res = results[cid]
+        A, B, L, L2, RpA, RpB, LpB = meta[cid]
+        v, inc = R.standard_violations(res, text, PROP)
+        part["violations"] += v
+        part["inconclusive"] += inc
+        if res.status != "ok":
+            continue
+        s1, s2 = res.ev(L["solve"]), res.ev(L2["solve"])
+        if s1 is None or s2 is None or s1.get("ret") != 0 or \
+                not all((res.ev(l) or {}).get("ret") == 0
+                        for l in L["add"] + L2["add"]):
+            cnt["again_first_solve_failed"] = cnt.get(
+                "again_first_solve_failed", 0) + 1
+            continue
+        part["evaluations"] += 1
+        part["distinct"].add(("again", A.ctype, A.F, A.form, B.form))
+        cnt["again_pairs"] = cnt.get("again_pairs", 0) + 1
+
+        def bad(what, desc):
+            part["violations"].append(dict(
+                key="%s:again:%s:%s" % (PROP, what, A.ctype),
+                desc="%s F=%d: through / reflect / line solved twice with "
+                     "the same unknown handles (guess %s for the reflect; "
+                     "first reflect %s, second %s): %s" % (
+                         A.ctype, A.F, complex(RpA.guess.values[0]),
+                         complex(RpA.values[0]), complex(RpB.values[0]),
+                         desc), script=text))
+        if s2.get("ret") != 0:
+            bad("second-solve-failed", "the second solve failed: %s" % s2)
+            continue
+        for nm, prm in (("R", RpB), ("L", LpB)):
+            ev = res.ev(L2["values"][nm])
+            got = None
+            if ev is not None and isinstance(ev.get("ret"), list):
+                got = np.array([complex(a, b) for a, b in ev["ret"]])
+            if got is None or got.shape != prm.values.shape or \
+                    not np.all(np.isfinite(got)) or \
+                    float(np.max(np.abs(got - prm.values))) > 1e-8:
+                bad("wrong-root", "after the second solve %s is %s, the "
+                    "second set's true value is %s" % (
+                        nm, None if got is None else got.tolist(),
+                        prm.values.tolist()))
+                break
+    return part
+
+
 def main():
     chk = R.Check(PROP)
     binary = chk.build("asan")
@@ -532,6 +631,11 @@ def main():
                // nchunks)
     for part in R.pmap(work_resolve, [(chk.seed, nres, binary, chk.workroot)
                                       for _ in range(nchunks)]):
+        chk.merge(part)
+    nag = max(2, int((96 if chk.tier == "quick" else 3000) * chk.args.scale)
+              // nchunks)
+    for part in R.pmap(work_again, [(chk.seed, nag, binary, chk.workroot)
+                                    for _ in range(nchunks)]):
         chk.merge(part)
     # convergence floor: inside the basin with ordinary settings the solver
     # must converge most of the time
@@ -565,7 +669,9 @@ def main():
              "a fifth of the LM solves start 0.4..1.5 away from the truth "
              "(termination, failure report and sanitizers only); "
              "resolve: one unknown solved repeatedly on different grids, its "
-             "value read back after each solve; "
+             "value read back after each solve; again: through / reflect / "
+             "line solved twice with the same unknown handles and a reflect "
+             "whose sign the first solution would resolve wrongly; "
              "distinct = distinct (path, type, shape, form, tolerance, "
              "iteration limit, weighting, #unknowns)",
         min_events=20,
